@@ -18,7 +18,8 @@ def corruptions(rng, base, quick=True, cap=110):
         w = int.from_bytes(base[32 * i:32 * i + 32], "big")
         vals = {0, 32 * i, len(base), len(base) + 1, len(base) - 32, W - 32, W - 1, 2 ** 255, (w + 1) % W, (w - 1) % W,
                 w | (0xFF << 248), w | 1, w ^ (1 << 255), w + 32 if w + 32 < W else 0, 2 ** 160, 2 ** 128, 256, 2,
-                (W - 32 + w) % W, (w | (1 << 64))}
+                (W - 32 + w) % W, (w | (1 << 64)), max(len(base) - 64, 0), max(len(base) - 96, 0),
+                max(len(base) - 128, 0)}
         vals.discard(w)
         for x in sorted(vals):
             out.append((f"CW {i} {hex(x)}", lambda b, i=i, x=x: b[:32 * i] + x.to_bytes(32, "big") + b[32 * i + 32:]))
